@@ -94,6 +94,9 @@ def fetch_run(case) -> dict:
     if case["mode"] == "live":
         extra = "&start=" + live_start(case["clock"])
     q = query(case["event"], case["sched"], extra)
+    if case.get("also"):
+        # a second event type with its default options in the same request
+        q = q.replace(f"events={case['event']}", f"events={case['event']},{case['also']}", 1)
     out = {"status": [], "segments": []}
     with appboot.Clock(case["clock"]):
         for n in case["numbers"]:
@@ -101,6 +104,21 @@ def fetch_run(case) -> dict:
             out["status"].append(r.status_code)
             out["segments"].append(E.read_segment(r.get_data()) if r.status_code == 200 else None)
     return out
+
+
+DEFAULT_SCHED = dict(start=0, interval=1000, count=0, duration=200, timescale=100, inband=True)
+
+
+def split_by_scheme(case, fetched):
+    """when two event types are requested: ({main event boxes per segment}, {other event's}) and the
+    other event's (default) schedule"""
+    main_scheme = E.PING_SCHEME if case["event"] == "ping" else E.SCTE_SCHEME
+    main = [[b for b in s["emsg"] if b["scheme"] == main_scheme] for s in fetched["segments"]]
+    other = [[b for b in s["emsg"] if b["scheme"] != main_scheme] for s in fetched["segments"]]
+    osched = dict(DEFAULT_SCHED, version=1 if case.get("also") == "scte35" else 0)
+    if case.get("also") == "scte35":
+        osched["program_id"] = 1620
+    return main, other, osched
 
 
 def emsg_case(case, fetched) -> dict:
@@ -127,7 +145,13 @@ def oracle_case(case) -> list:
     if any(st != 200 for st in f["status"]):
         return [f"segment requests answered {f['status']}"]
     ec = emsg_case(case, f)
-    return E.oracle_run(ec, [s["emsg"] for s in f["segments"]])
+    main, other, osched = split_by_scheme(case, f)
+    fails = E.oracle_run(ec, main)
+    if case.get("also"):
+        fails += E.oracle_run(dict(ec, event=case["also"], sched=osched), other)
+    elif any(other):
+        fails.append("boxes of an event scheme that was not requested")
+    return fails
 
 
 # ------------------------------------------------------------------ manifests (out-of-band)
@@ -231,7 +255,10 @@ def gen_case(rng, thorough: bool):
              version=1 if event == "scte35" else rng.choice([0, 1]), inband=True)
     if event == "scte35":
         s["program_id"] = rng.choice([1620, 345, 65535])
-    return {"kind": "segments", "mode": mode, "clock": clock, "event": event, "sched": s, "numbers": numbers}
+    case = {"kind": "segments", "mode": mode, "clock": clock, "event": event, "sched": s, "numbers": numbers}
+    if rng.random() < .15:
+        case["also"] = "scte35" if event == "ping" else "ping"
+    return case
 
 
 def gen_manifest_case(rng):
@@ -336,18 +363,28 @@ def _segment_case(ch, case, lines, jobs):
         ch.nontrivial.add(json.dumps(case, sort_keys=True))
     def o(v):
         return "-" if v is None else str(v)
-    impl = ";".join("+".join(f"{b['id']},{o(b['delta'])},{o(b['pt'])}" for b in s["emsg"]) or "-" for s in segs)
+    main, other, osched = split_by_scheme(case, f)
+    impl = ";".join("+".join(f"{b['id']},{o(b['delta'])},{o(b['pt'])}" for b in bs) or "-" for bs in main)
     lines.append(E.driver_line(ec))
     jobs.append((case, "boxes per segment", impl))
+    if case.get("also"):
+        ch.count("two event types in one request")
+        impl2 = ";".join("+".join(f"{b['id']},{o(b['delta'])},{o(b['pt'])}" for b in bs) or "-" for bs in other)
+        lines.append(E.driver_line(dict(ec, sched=osched)))
+        jobs.append((case, f"boxes per segment ({case['also']}, default options)", impl2))
     s = case["sched"]
     if case["event"] == "scte35":
-        for seg in segs:
-            for b in seg["emsg"]:
+        for bs in main:
+            for b in bs:
                 t = s["start"] + b["id"] * s["interval"]
                 lines.append(f"scte35sig {s['start']} {s['interval']} {s['count']} {s['duration']} {s['timescale']} "
                              f"{s.get('program_id', 1620)} {b['id']} {t}")
                 jobs.append((case, f"scte35 payload of event {b['id']}", b["data"].hex()))
-    fails = E.oracle_run(ec, [x["emsg"] for x in segs])
+    fails = E.oracle_run(ec, main)
+    if case.get("also"):
+        fails += E.oracle_run(dict(ec, event=case["also"], sched=osched), other)
+    elif any(other):
+        fails.append("boxes of an event scheme that was not requested")
     if fails:
         ch.oracle_failures.append({"channel": "events_e2e", "case": case, "failures": fails[:4]})
     ch.sample({"case": case, "run": ec["run"][:3], "boxes": impl[:100]}, limit=3)
